@@ -188,6 +188,25 @@ Theorem ci_implies_de : forall alts ballots,
 Proof. exact Proofs.Approval.ci_implies_de. Qed.
 Print Assumptions ci_implies_de.
 
+(* an embedding on the rational line yields a CI order (sort the alternatives by position) *)
+Theorem de_implies_ci : forall alts ballots, DE alts ballots -> CI alts ballots.
+Proof. exact Proofs.Approval.de_implies_ci. Qed.
+Print Assumptions de_implies_ci.
+
+Theorem de_iff_ci : forall alts ballots,
+  Forall (fun b => incl b alts) ballots -> (DE alts ballots <-> CI alts ballots).
+Proof. exact Proofs.Approval.de_iff_ci. Qed.
+Print Assumptions de_iff_ci.
+
+Theorem de_check_sound : forall alts ballots vpr ap, de_check alts ballots vpr ap = true -> DE alts ballots.
+Proof. exact Proofs.Approval.de_check_sound. Qed.
+Print Assumptions de_check_sound.
+
+Theorem de_decide_correct : forall alts ballots,
+  Forall (fun b => incl b alts) ballots -> (de_decide alts ballots = true <-> DE alts ballots).
+Proof. exact Proofs.Approval.de_decide_correct. Qed.
+Print Assumptions de_decide_correct.
+
 (* ---- is_part / is_2_part (mirrored) ---- *)
 Theorem part_correct : forall ballots, (exists parts, is_part ballots = Some parts) <-> PartOK ballots.
 Proof. exact Proofs.Approval.part_correct. Qed.
